@@ -465,7 +465,7 @@ def evaluate(ops, outs, order, res, stats, ctx, scenario_id):
             if not hm:
                 problem("dkg:unparsable", i, hdr[:200], [out[:300]])
                 break
-            tx, trace = int(hm.group(1)), hm.group(2).split(",")
+            tx, trace = int(hm.group(1)), re.findall(r"[^,(]+(?:\([^)]*\))?", hm.group(2))  # "Rename(a,b)" is one step
             script = "dkg-eviction" if kind == "evict" else "dkg-completion"
             stats["traces"][",".join(trace)] = stats["traces"].get(",".join(trace), 0) + 1
             ov = observed_variant(trace)
